@@ -4,17 +4,21 @@ From Coq Require Import List ZArith Bool Lia.
 Require Import MTX.Lib.Trace MTX.Model.PathSM MTX.Proofs.PathSM.
 Import ListNotations.
 Local Open Scope Z_scope.
-Lemma fst_add_publisher q p s :
-  fst (do_add_publisher q p s) =
+(* the state after attach_publisher, refused publishers included *)
+Definition attached (p : Z) (ok : bool) (s : pstate) : pstate :=
+  if aa s && negb ok then s else fst (consume_on_hold (fst (pre_attach p s))).
+
+Lemma fst_add_publisher q p ok s :
+  fst (do_add_publisher q p ok s) =
   if c_static (s_conf s) then s
   else match s_source s with
        | Some old =>
            if negb (c_override (s_conf s)) then s
-           else fst (consume_on_hold (fst (pre_attach p (fst (execute_remove_publisher s)))))
-       | None => fst (consume_on_hold (fst (pre_attach p s)))
+           else attached p ok (fst (execute_remove_publisher s))
+       | None => attached p ok s
        end.
 Proof.
-  unfold do_add_publisher. destruct (c_static (s_conf s)); [reflexivity|].
+  unfold do_add_publisher, attached. destruct (c_static (s_conf s)); [reflexivity|].
   destruct (s_source s) as [old|].
   - destruct (negb (c_override (s_conf s))); [reflexivity|].
     rewrite !fst_bind, fst_attach. reflexivity.
@@ -34,17 +38,18 @@ Qed.
 (* reduction of the state only: the invariant stays folded *)
 Ltac red_state :=
   lazy beta iota zeta delta [fst snd
-     step_gen pre_attach pre_static_ready execute_remove_publisher clear_timers close_source close_demand close_stream
+     step_gen pre_attach pre_tail pre_static_ready execute_remove_publisher clear_timers close_source close_demand close_stream
+     source_gone start_offline aa not_aa attached
      set_not_available set_available set_online set_offline call_unavailable hook_open hook_close panic
      handler_start handler_stop ss_start ss_schedule_close ss_stop pub_start pub_schedule_close pub_stop
      bump_on_demand fail_on_hold whenM bindM modify emit ret timer_armed disarm cur_stream
      set_closed set_source set_stream set_nextgen set_readers set_dhold set_rhold set_ssState set_ssReadyT
      set_ssCloseT set_ssRunning set_instReady set_pubState set_pubReadyT set_pubCloseT set_hUnDemand
-     set_hUnavail set_hOffline
+     set_hUnavail set_hOffline set_sub
      s_conf s_closed s_source s_stream s_nextgen s_readers s_dhold s_rhold s_ssState s_ssReadyT s_ssCloseT
-     s_ssRunning s_instReady s_pubState s_pubReadyT s_pubCloseT s_hUnDemand s_hUnavail s_hOffline
+     s_ssRunning s_instReady s_pubState s_pubReadyT s_pubCloseT s_hUnDemand s_hUnavail s_hOffline s_sub
      PathSM.c_static PathSM.c_sod PathSM.c_override PathSM.c_maxr PathSM.c_hAvail PathSM.c_hUnavail
-     PathSM.c_hOnline PathSM.c_hOffline PathSM.c_hDemand PathSM.c_hUnDemand
+     PathSM.c_hOnline PathSM.c_hOffline PathSM.c_hDemand PathSM.c_hUnDemand PathSM.c_aa
      od_static od_pub ods_eqb andb orb negb].
 
 Ltac after_consume :=
@@ -53,14 +58,14 @@ Ltac after_consume :=
       let E := fresh "E" in let rd' := fresh "rd'" in let Hne := fresh "Hne" in
       change (let (x, _) := consume_on_hold S4 in x) with (fst (consume_on_hold S4));
       destruct (consume_cases S4) as [E|(rd' & Hne & E)]; rewrite E; clear E;
-      [|destruct rd' as [|? ?]; [congruence|]]; red_goal; reflexivity
-  | |- _ => red_goal; reflexivity
+      [|destruct rd' as [|? ?]; [congruence|]]; red_goal; rewrite ?Z.eqb_refl; reflexivity
+  | |- _ => red_goal; rewrite ?Z.eqb_refl; reflexivity
   end.
 
 Lemma inv_weaken fx s : inv_b fx s = true -> inv_b false s = true.
 Proof.
   intros H. destruct fx; [|exact H]. start s. destruct cl; [exact H|].
-  enum H; red_goal; reflexivity.
+  enum H; red_goal; rewrite ?Z.eqb_refl; reflexivity.
 Qed.
 
 (* executeRemovePublisher is what RemovePublisher did before the repair *)
@@ -75,39 +80,37 @@ Qed.
 
 Lemma erp_fields s :
   s_source (fst (execute_remove_publisher s)) = None /\
-  s_closed (fst (execute_remove_publisher s)) = (s_closed s || negb (s_hUnavail s)) /\
+  s_closed (fst (execute_remove_publisher s)) = (s_closed s || (negb (aa s) && negb (s_hUnavail s))) /\
   s_conf (fst (execute_remove_publisher s)) = s_conf s.
 Proof.
-  destruct s. unfold execute_remove_publisher, set_not_available, set_offline, call_unavailable, hook_close, panic,
-    bindM, modify, emit. cbn.
-  destruct s_hOffline, s_hUnavail, s_closed; cbn; repeat split; reflexivity.
+  destruct s as [[? ? ? ? ? ? ? ? ? ? a] cl ? ? ? ? ? ? ? ? ? ? ? ? ? ? ? hua hof ?].
+  destruct a, hof, hua, cl; repeat split; reflexivity.
 Qed.
 
-Lemma fin_attach fx s q p :
+Lemma fin_attach fx s p ok :
   inv_b false s = true -> s_closed s = false -> s_source s = None -> c_static (s_conf s) = false ->
-  inv_b fx (fst (attach_publisher q p s)) = true.
+  inv_b fx (attached p ok s) = true.
 Proof.
-  intros H Hc Hs Hst. rewrite fst_attach. start s. cbn in Hc, Hs, Hst. subst.
-  destruct fx; enum H; red_state; after_consume.
+  intros H Hc Hs Hst. start s. cbn in Hc, Hs, Hst. subst.
+  destruct fx, ok; enum H; red_state; after_consume.
 Qed.
 
-Lemma fin_add_publisher fx s q p : inv_b fx s = true -> inv_b fx (fst (step_gen fx s (AddPublisher q p))) = true.
+Lemma fin_add_publisher fx s q p ok : inv_b fx s = true -> inv_b fx (fst (step_gen fx s (AddPublisher q p ok))) = true.
 Proof.
   intros H. unfold step_gen. destruct (s_closed s) eqn:Ecl; [exact H|]. rewrite fst_add_publisher.
   destruct (c_static (s_conf s)) eqn:Est; [exact H|].
   pose proof (inv_weaken _ _ H) as Hw.
   destruct (s_source s) as [old|] eqn:Esrc.
   - destruct (negb (c_override (s_conf s))); [exact H|].
-    rewrite <- fst_attach with (q := q).
     destruct (erp_fields s) as (F1 & F2 & F3).
     assert (Hua : s_hUnavail s = true).
     { clear - H Ecl Est Esrc. start s. cbn in *. subst. enum H; reflexivity. }
     apply fin_attach.
     + apply fin_erp with (p := old); assumption.
-    + rewrite F2, Ecl, Hua. reflexivity.
+    + rewrite F2, Ecl, Hua, andb_false_r. reflexivity.
     + exact F1.
     + rewrite F3. exact Est.
-  - rewrite <- fst_attach with (q := q). apply fin_attach; assumption.
+  - apply fin_attach; assumption.
 Qed.
 
 Lemma fin_static_ready fx s q : inv_b fx s = true -> inv_b fx (fst (step_gen fx s (StaticReady q))) = true.
